@@ -27,11 +27,18 @@
        Is method, alone and inside a dial error - all while the request context is alive) and
        projects what it observes by identity; model and oracle take e as opaque: the properties say what happens to an
        error by where it arose (transport, validator, reader, GetBody), never by what it looks like
+     cfg may have a tenth element n<validator> (harness only): the validator is a closure of the harness or, for scripts
+       without a rejected response, sse.NoopValidator
      step = ( n0 n<e> )                     Do fails with injected error e
           | ( n1 )                          the context is cancelled inside RoundTrip, Do fails with its error
-          | ( n2 n<e> )                     the validator rejects the response with error e
-          | ( n3 x<body> ending chunks )    accepted response; ending = (n0) EOF | (n1 n<e>) read error e
-                                            | (n2 n<how>) cancellation inside Read; chunks: harness only
+          | ( n2 n<e> n<status> )           the validator rejects the response with error e
+          | ( n3 x<body> ending chunks n<with last> n<status> )
+                                            accepted response; ending = (n0) EOF | (n1 n<e>) read error e
+                                            | (n2 n<how>) cancellation inside Read; chunks, with last: harness only
+       status (harness only; absent / 0 = 200): the status code the response carries.  It is what the validator may
+       look at; the script fixes the validator's verdict, and once the response is accepted or rejected nothing in
+       client_connection.go:231-258 reads the status again - model and oracle do not look at it: an accepted 204 / 304 /
+       404 / 500 is read and retried like an accepted 200, and Connect never returns nil
    output: ( ( item ... ) result ( n<waited> ... ) )
      item = ( n0 ( x<header value> ... ) (opt n<body generation>) )    a request at the RoundTripper
           | ( n1 x<LastEventID> x<Type> x<Data> )                     an event at a SubscribeToAll callback
